@@ -244,3 +244,40 @@ class StateEval:
                     continue
                 stack.append((s, p + (s,), env))
         return out
+
+
+    def explore(self, env0, on_call=None, on_block=None, limit=20000):
+        """Like run(), with hooks: on_call(bb, term, env) -> list of envs to continue with (callee
+        effects), on_block(bb, env) -> None (observe emissions before the block's statements)."""
+        out = []
+        stack = [(0, (0,), dict(env0))]
+        while stack:
+            b, p, env = stack.pop()
+            if on_block is not None:
+                env = on_block(b, env) or env
+            env = self._step(b, env)
+            t = self.fn.blocks[b]['term']
+            if t['k'] == 'return':
+                out.append((p, env))
+                if len(out) > limit:
+                    raise RuntimeError('path budget exceeded')
+                continue
+            envs = [env]
+            if t['k'] == 'call' and on_call is not None:
+                envs = on_call(b, t, env)
+            succ = self.fn.succs(b)
+            if t['k'] == 'switch':
+                try:
+                    val = fold(self._conds[b], env)
+                    succ = [t['otherwise']]
+                    for a, tgt in t['arms']:
+                        if int(a) == val:
+                            succ = [tgt]
+                except Unknown:
+                    pass
+            for e2 in envs:
+                for s in succ:
+                    if p.count(s) >= self.max_visits:
+                        continue
+                    stack.append((s, p + (s,), dict(e2)))
+        return out
